@@ -179,7 +179,13 @@ def r3_iff(cx):
             else:
                 cx.require(k == "good", a, "a group is reported missing iff none of its members is in the broker")
         names.append(a.targets[0].id if isinstance(a.targets[0], ast.Name) else U(a.targets[0]))
+    for a in req[:1] + grp[:1]:
+        cx.require(not guard_texts(a), a, "both parts of the report are computed unconditionally (an unsatisfied group is reported even when a required dependency is missing too)",
+                   construct="%s guarded by %s" % (short(a, 80), sorted(guard_texts(a))))
     if len(names) == 2:
+        for r in [r for r in walk_body(fn.body) if isinstance(r, ast.Return) and r.value is not None and U(r.value) != "None"]:
+            cx.require(U(r.value) in ("(%s, %s)" % tuple(names), "%s, %s" % tuple(names)), r, "every report returned is the pair (missing required, unsatisfied groups) as computed - nothing is dropped from it",
+                       construct=short(r))
         rets = [r for r in walk_body(fn.body) if isinstance(r, ast.Return)]
         ok = len(rets) == 1 and U(rets[0].value) in ("(%s, %s)" % tuple(names),)
         if ok:
